@@ -4,8 +4,9 @@
 // redefined (c14_params.hpp, before any amgcl header) to record the reported keys.
 // Parts: -DC14_PART_SERIAL (g++), -DC14_PART_MPI (mpicxx; parameter structures only, no
 // communication).  -DC14_ONLY_ID='"id"' -DC14_ONLY_TYPE=T_id -DC14_PROBE_EXPORT is a probe translation
-// unit that instantiates params::get of ONE component whose exporter does not compile on the
-// pinned tree (deflated_solver, relaxation::ilut); the main unit never instantiates those.
+// unit that instantiates params::get of ONE component whose exporter did not compile on the
+// pinned tree (deflated_solver before aee7805, relaxation::ilut before 44fb554); the main unit never
+// instantiates those, so that a broken exporter is one attributed violation, not a build failure.
 #include "c14_params.hpp"
 
 #if defined(C14_PART_SERIAL) || defined(C14_PART_MPI)
